@@ -38,9 +38,10 @@ Definition print_dec (m e : Z) : string :=
   else if dp <=? 0 then "0." ++ zeros (Z.to_nat (- dp)) ++ ds
   else if nd <=? dp then ds ++ zeros (Z.to_nat (dp - nd))
   else stake (Z.to_nat dp) ds ++ "." ++ sdrop (Z.to_nat dp) ds.
-Definition print_num (n : num) : string :=
+(* fmt.Sprint(+Inf) = "+Inf" (finding F-C28g: the sign is parsed back as a unary operator); repaired: "Inf" *)
+Definition print_num (fx : bool) (n : num) : string :=
   match n_mag n with
-  | MInf => if n_neg n then "-Inf" else "+Inf"
+  | MInf => if n_neg n then "-Inf" else if fx then "Inf" else "+Inf"
   | MNaN => "NaN"
   | MDec m e => (if n_neg n then "-" else "") ++ print_dec m e
   end.
@@ -129,7 +130,7 @@ Definition print_aggop (a : aggop) (grp : list string) (wo : bool) : string :=
 
 Fixpoint print (fx : bool) (e : expr) : string :=
   match e with
-  | ENum n => print_num n
+  | ENum n => print_num fx n
   | EStr s => quote s
   | EVec v => print_vec fx v
   | EMatrix v r => print_matrix fx v r
@@ -189,7 +190,7 @@ Definition toks_matching (vm : vmatch) : list tok :=
 Fixpoint toks (e : expr) : list tok :=
   match e with
   | ENum n =>
-      (if n_neg n then [TOp OSub "-"] else match n_mag n with MInf => [TOp OAdd "+"] | _ => [] end) ++ [toks_num_abs (n_mag n)]
+      (if n_neg n then [TOp OSub "-"] else []) ++ [toks_num_abs (n_mag n)]
   | EStr s => [TStr s]
   | EVec v => toks_sel_head v ++ toks_at (vs_at v) ++ toks_offsets v
   | EMatrix v r => toks_sel_head v ++ [TLBracket; TDur r; TRBracket] ++ toks_at (vs_at v) ++ toks_offsets v
